@@ -193,7 +193,12 @@ class DiffXDOMReader(object):
             pydiffx.dom.objects.DiffXChangeSection:
             The new change section.
         """
-        return diffx.add_change(**section_info['options'])
+        try:
+            return diffx.add_change(**section_info['options'])
+        except TypeError as e:
+            # An option shares its name with a content section (such as
+            # "meta"), but its value isn't content.
+            raise DiffXParseError(str(e), linenum=section_info['line'])
 
     def _read_file_section(self, diffx, section, section_info):
         """Read a file section.
@@ -214,7 +219,12 @@ class DiffXDOMReader(object):
             pydiffx.dom.objects.DiffXFileSection:
             The new file section.
         """
-        return diffx.changes[-1].add_file(**section_info['options'])
+        try:
+            return diffx.changes[-1].add_file(**section_info['options'])
+        except TypeError as e:
+            # An option shares its name with a content section (such as
+            # "meta" or "diff"), but its value isn't content.
+            raise DiffXParseError(str(e), linenum=section_info['line'])
 
     def _set_content_options(self, section, options):
         options.pop('length', None)
